@@ -1076,7 +1076,7 @@ def replay(ctx, rp):
     return False
 
 
-KEYWORD_NAMES = ["DIV", "INT", "Int", "MOD", "Mem", "O", "SOME", "Sub", "THE", "UN", "Un", "else", "if", "then"]
+KEYWORD_NAMES = ["DIV", "INT", "Int", "MOD", "Mem", "O", "SOME", "Sub", "THE", "UN", "Un", "_", "else", "if", "then"]
 
 MANIFEST = {
     "text": "Lean theorem parse_print: for every precedence-core skeleton (operators of the regenerated syntax/operator.py table, prefix operators, "
